@@ -23,7 +23,8 @@ Inductive exp :=
 | EMethod (o : exp) (m : bytes) (sg : bool) (args : list exp)    (* o:m(args)   written without parentheses, f "s" / f { t } *)
 | EUn (u : uop) (e : exp) | EBin (b : bop) (l r : exp) | EParen (e : exp)
 | ETable (fs : list exp)                             (* fields: FPos / FNamed / FKey only *)
-| FPos (e : exp) | FNamed (n : bytes) (e : exp) | FKey (k e : exp).
+| FPos (e : exp) | FNamed (n : bytes) (e : exp) | FKey (k e : exp)
+| ETableML (fs : list exp).                          (* a table whose `{` is followed by a line break in the source: always written over several lines *)
 
 (* Comments at statement level.  A comment is the text of a line comment after its two dashes, without trailing
    blanks; [trivia] is a run of own-line comments, each with the flag "a blank line precedes it".
@@ -70,6 +71,7 @@ Fixpoint nexp (c : ctx) (e : exp) : exp :=
   | ECall f sg args => ECall (nexp Prefix f) sg (map (nexp Std) args)
   | EMethod o m sg args => EMethod (nexp Prefix o) m sg (map (nexp Std) args)
   | ETable fs => ETable (map (nexp Std) fs)
+  | ETableML fs => ETableML (map (nexp Std) fs)
   | FPos x => FPos (nexp Std x)
   | FNamed n x => FNamed n (nexp Std x)
   | FKey k x => FKey (nexp Std k) (nexp Std x)
@@ -109,10 +111,10 @@ Definition nprog := nblk.
 (* ---------------- call form: call_parentheses (functions.rs format_function_args, the model of CallForm.v) ----------------
    The single argument of a call is put in the form CallForm.call_form gives for the mode, the form it had, its kind and
    "an index or a method call follows" (format_function_call: the next suffix). *)
-Definition sugarable (args : list exp) : bool := match args with [EStr _] | [ETable _] => true | _ => false end.
-Definition akind_args (args : list exp) : akind := match args with [EStr _] => KStr | [ETable _] => KTbl | _ => KOther end.
+Definition sugarable (args : list exp) : bool := match args with [EStr _] | [ETable _] | [ETableML _] => true | _ => false end.
+Definition akind_args (args : list exp) : akind := match args with [EStr _] => KStr | [ETable _] | [ETableML _] => KTbl | _ => KOther end.
 Definition aform_args (sg : bool) (args : list exp) : aform :=
-  if sg then match args with [EStr _] => FStr | [ETable _] => FTbl | _ => FParen end else FParen.
+  if sg then match args with [EStr _] => FStr | [ETable _] | [ETableML _] => FTbl | _ => FParen end else FParen.
 Definition newsg (m : cmode) (obs sg : bool) (args : list exp) : bool :=
   match call_form m (aform_args sg args) (akind_args args) obs with FParen => false | _ => true end.
 Section CExp.
@@ -127,6 +129,7 @@ Fixpoint cexp (obs : bool) (e : exp) : exp :=
   | EBin b l r => EBin b (cexp false l) (cexp false r)
   | EParen x => EParen (cexp false x)
   | ETable fs => ETable (map (cexp false) fs)
+  | ETableML fs => ETableML (map (cexp false) fs)
   | FPos x => FPos (cexp false x)
   | FNamed n x => FNamed n (cexp false x)
   | FKey k x => FKey (cexp false k) (cexp false x)
@@ -219,24 +222,28 @@ Definition gap_call : list tok := if space_call (space0 c) then [sp] else [].
 Definition gap_sugar : tok := TWs (SP :: (if space_call (space0 c) then [SP] else [])).
 (* the arguments [xs] of a call, without parentheses ([sug]) or inside them *)
 Definition pargs (sug : bool) (xs : list tok) : list tok := if sug then gap_sugar :: xs else gap_call ++ kw "(" :: xs ++ [kw ")"].
-Fixpoint pexp (e : exp) : list tok :=
+(* [d]: the indentation level of the line the expression starts on; a table written over several lines puts each field on
+   a line of its own one level deeper, a comma behind every field, and its closing brace back on level [d] *)
+Fixpoint pexp (d : nat) (e : exp) {struct e} : list tok :=
   match e with
   | ENil => [kw "nil"] | ETrue => [kw "true"] | EFalse => [kw "false"] | EVararg => [kw "..."]
   | ENum s => [TNum (Number.number_rewrite s)] | EStr s => [pstr (style0 c) s] | EName n => [TIdent n]
-  | EField p n => pexp p ++ [kw "."; TIdent n]
-  | EIndex p k => pexp p ++ kw "[" :: pexp k ++ [kw "]"]
-  | ECall f sg args => pexp f ++ pargs (sg && sugarable args) (commas (map pexp args))
-  | EMethod o m sg args => pexp o ++ kw ":" :: TIdent m :: pargs (sg && sugarable args) (commas (map pexp args))
-  | EUn u x => uop_toks u ++ pexp x
-  | EBin b l r => pexp l ++ sp :: kw (bop_text b) :: sp :: pexp r
-  | EParen x => kw "(" :: pexp x ++ [kw ")"]
+  | EField p n => pexp d p ++ [kw "."; TIdent n]
+  | EIndex p k => pexp d p ++ kw "[" :: pexp d k ++ [kw "]"]
+  | ECall f sg args => pexp d f ++ pargs (sg && sugarable args) (commas (map (pexp d) args))
+  | EMethod o m sg args => pexp d o ++ kw ":" :: TIdent m :: pargs (sg && sugarable args) (commas (map (pexp d) args))
+  | EUn u x => uop_toks u ++ pexp d x
+  | EBin b l r => pexp d l ++ sp :: kw (bop_text b) :: sp :: pexp d r
+  | EParen x => kw "(" :: pexp d x ++ [kw ")"]
   | ETable [] => [kw "{"; kw "}"]
-  | ETable fs => kw "{" :: sp :: commas (map pexp fs) ++ [sp; kw "}"]
-  | FPos x => pexp x
-  | FNamed n x => TIdent n :: sp :: kw "=" :: sp :: pexp x
-  | FKey k x => kw "[" :: pexp k ++ kw "]" :: sp :: kw "=" :: sp :: pexp x
+  | ETable fs => kw "{" :: sp :: commas (map (pexp d) fs) ++ [sp; kw "}"]
+  | FPos x => pexp d x
+  | FNamed n x => TIdent n :: sp :: kw "=" :: sp :: pexp d x
+  | FKey k x => kw "[" :: pexp d k ++ kw "]" :: sp :: kw "=" :: sp :: pexp d x
+  | ETableML [] => [kw "{"; kw "}"]
+  | ETableML fs => kw "{" :: eol c :: List.concat (map (fun f => indent c (S d) ++ pexp (S d) f ++ [kw ","; eol c]) fs) ++ indent c d ++ [kw "}"]
   end.
-Definition pexps (es : list exp) : list tok := commas (map pexp es).
+Definition pexps (d : nat) (es : list exp) : list tok := commas (map (pexp d) es).
 End PExp.
 Definition pnames (ns : list bytes) : list tok := commas (map (fun n => [TIdent n]) ns).
 Definition pparams (c : cfg0) (ps : list bytes) (va : bool) : list tok :=
@@ -252,16 +259,18 @@ Notation pexps := (pexps c).
 Definition ptrivia (d : nat) (tv : trivia) : list tok :=
   List.concat (map (fun bc : bool * bytes => (if fst bc then [eol c] else []) ++ indent c d ++ [TLineCom (snd bc); eol c]) tv).
 Definition ptrail (t : option bytes) : list tok := match t with Some x => [sp; TLineCom x] | None => [] end.
+(* no line break among the tokens *)
+Definition oneline (ts : list tok) : bool := forallb (fun t => match t with TWs w => negb (existsb (fun ch => Ascii.eqb ch LF) w) | _ => true end) ts.
 Definition blk_empty (b : blk) : bool := match b with Blk [] [] => true | _ => false end.
 (* the statements that have no block inside: their tokens do not depend on the indentation *)
-Definition psimple (s : stmt) : list tok :=
+Definition psimple (d : nat) (s : stmt) : list tok :=
   match s with
   | SLocal ns [] => kw "local" :: sp :: pnames ns
-  | SLocal ns es => kw "local" :: sp :: pnames ns ++ sp :: kw "=" :: sp :: pexps es
-  | SAssign vs es => pexps vs ++ sp :: kw "=" :: sp :: pexps es
-  | SCall e => pexp e
+  | SLocal ns es => kw "local" :: sp :: pnames ns ++ sp :: kw "=" :: sp :: pexps d es
+  | SAssign vs es => pexps d vs ++ sp :: kw "=" :: sp :: pexps d es
+  | SCall e => pexp d e
   | SReturn [] => [kw "return"]
-  | SReturn es => kw "return" :: sp :: pexps es
+  | SReturn es => kw "return" :: sp :: pexps d es
   | SBreak => [kw "break"]
   | _ => []
   end.
@@ -271,24 +280,25 @@ Fixpoint pstmt (d : nat) (s : stmt) {struct s} : list tok :=
   let fbody (b : blk) : list tok :=
     if blk_empty b then [sp; kw "end"]
     else match fun_guard c b with
-         | Some s1 => sp :: psimple s1 ++ [sp; kw "end"]         (* function f() return x end *)
+         | Some s1 => if oneline (psimple d s1) then sp :: psimple d s1 ++ [sp; kw "end"]         (* function f() return x end *)
+                      else eol c :: pblk (S d) b ++ indent c d ++ [kw "end"]                      (* functions.rs: spans_multiple_lines *)
          | None => eol c :: pblk (S d) b ++ indent c d ++ [kw "end"]
          end in
   match s with
-  | SLocal _ _ | SAssign _ _ | SCall _ | SReturn _ | SBreak => psimple s
+  | SLocal _ _ | SAssign _ _ | SCall _ | SReturn _ | SBreak => psimple d s
   | SDo b => kw "do" :: eol c :: pblk (S d) b ++ indent c d ++ [kw "end"]
-  | SWhile e b => kw "while" :: sp :: pexp e ++ sp :: kw "do" :: eol c :: pblk (S d) b ++ indent c d ++ [kw "end"]
-  | SRepeat b e => kw "repeat" :: eol c :: pblk (S d) b ++ indent c d ++ kw "until" :: sp :: pexp e
+  | SWhile e b => kw "while" :: sp :: pexp d e ++ sp :: kw "do" :: eol c :: pblk (S d) b ++ indent c d ++ [kw "end"]
+  | SRepeat b e => kw "repeat" :: eol c :: pblk (S d) b ++ indent c d ++ kw "until" :: sp :: pexp d e
   | SIf e t r =>
     match if_guard c t r with
-    | Some s1 => kw "if" :: sp :: pexp e ++ sp :: kw "then" :: sp :: psimple s1 ++ [sp; kw "end"]      (* if x then return end *)
-    | None => kw "if" :: sp :: pexp e ++ sp :: kw "then" :: eol c :: pblk (S d) t ++ pels d r ++ indent c d ++ [kw "end"]
+    | Some s1 => kw "if" :: sp :: pexp d e ++ sp :: kw "then" :: sp :: psimple d s1 ++ [sp; kw "end"]      (* if x then return end *)
+    | None => kw "if" :: sp :: pexp d e ++ sp :: kw "then" :: eol c :: pblk (S d) t ++ pels d r ++ indent c d ++ [kw "end"]
     end
   | SNumFor v a b st body =>
-    kw "for" :: sp :: TIdent v :: sp :: kw "=" :: sp :: pexp a ++ kw "," :: sp :: pexp b ++
-    (match st with Some x => kw "," :: sp :: pexp x | None => [] end) ++ sp :: kw "do" :: eol c :: pblk (S d) body ++ indent c d ++ [kw "end"]
+    kw "for" :: sp :: TIdent v :: sp :: kw "=" :: sp :: pexp d a ++ kw "," :: sp :: pexp d b ++
+    (match st with Some x => kw "," :: sp :: pexp d x | None => [] end) ++ sp :: kw "do" :: eol c :: pblk (S d) body ++ indent c d ++ [kw "end"]
   | SGenFor ns es body =>
-    kw "for" :: sp :: pnames ns ++ sp :: kw "in" :: sp :: pexps es ++ sp :: kw "do" :: eol c :: pblk (S d) body ++ indent c d ++ [kw "end"]
+    kw "for" :: sp :: pnames ns ++ sp :: kw "in" :: sp :: pexps d es ++ sp :: kw "do" :: eol c :: pblk (S d) body ++ indent c d ++ [kw "end"]
   | SFunction p m ps va body =>
     kw "function" :: sp :: dotted p ++ (match m with Some n => [kw ":"; TIdent n] | None => [] end) ++ pparams c ps va ++ fbody body
   | SLocalFunction n ps va body => kw "local" :: sp :: kw "function" :: sp :: TIdent n :: pparams c ps va ++ fbody body
@@ -297,7 +307,7 @@ with pels (d : nat) (r : els) {struct r} : list tok :=
   match r with
   | NoElse => []
   | Else b => indent c d ++ kw "else" :: eol c :: pblk (S d) b
-  | ElseIf e2 t2 r2 => indent c d ++ kw "elseif" :: sp :: pexp e2 ++ sp :: kw "then" :: eol c :: pblk (S d) t2 ++ pels d r2
+  | ElseIf e2 t2 r2 => indent c d ++ kw "elseif" :: sp :: pexp d e2 ++ sp :: kw "then" :: eol c :: pblk (S d) t2 ++ pels d r2
   end
 with pitem (d : nat) (i : item) {struct i} : list tok :=
   match i with
